@@ -182,3 +182,7 @@ func isNilFunc(v value) bool {
 	}
 	return false
 }
+
+func typesNewPointer(t types.Type) types.Type { return types.NewPointer(t) }
+
+const kindU8 = types.Uint8
